@@ -13,6 +13,8 @@ mod alpha;
 mod big;
 #[path = "../../fpmc/src/frontier.rs"]
 mod frontier;
+#[path = "../../fpmc/src/forms.rs"]
+mod forms;
 
 use alpha::Level;
 use fpdec::{CheckedAdd, CheckedDiv, CheckedMul, CheckedRem, CheckedSub, Decimal, DivRounded, MulRounded, Quantize, Round, RoundingMode};
@@ -188,6 +190,52 @@ fn main() {
                 for &v in &[i32::MIN as i128, -7, -1, 1, 3, 1000, i32::MAX as i128] { let i = v as i32; let inp = || format!("({},{}) {}i32 {}", a, p, v, MODE_NAMES[mi]); int_ops!(c, x, i, "i32", &inp, mi); }
                 for &v in &[1i128, 10, u64::MAX as i128, 10i128.pow(19)] { let i = v as u64; let inp = || format!("({},{}) {}u64 {}", a, p, v, MODE_NAMES[mi]); int_ops!(c, x, i, "u64", &inp, mi); }
                 for &v in &[-i128::MAX, -10i128.pow(20), -2, 3, 10i128.pow(37), i128::MAX / 10 + 1, i128::MAX] { let i = v; let inp = || format!("({},{}) {}i128 {}", a, p, v, MODE_NAMES[mi]); int_ops!(c, x, i, "i128", &inp, mi); }
+            }
+        }
+    }
+    RoundingMode::set_default(RoundingMode::RoundHalfEven);
+
+    // B2. Decimal x integer over the integer alphabet of the input-shape checks (range ends, powers of ten, the
+    // integer's own scaling thresholds floor(M/10^k)+{0,1}, bit-width boundaries) for one unsigned and one signed
+    // type of 8, 32/64 and 128 bits: an unchecked scaling of the INTEGER operand panics with overflow checks and
+    // wraps without them exactly there (seeded changes C01-m7, C04-m7 were invisible to the hand-picked list of B)
+    let mini: Vec<i128> = vec![0, 1, -1, 5, -25, alpha::pow10(17) + 1, -alpha::pow10(18), 999_999_999_999_999_999, i128::MAX / alpha::pow10(18), -(i128::MAX / alpha::pow10(9)), i128::MAX - 1];
+    for mi in [5usize, 3] {
+        RoundingMode::set_default(MODES[mi]);
+        for t in [0usize, 5, 6, 8] {
+            let tn = ["u8", "i8", "u16", "i16", "u32", "i32", "u64", "i64", "i128"][t];
+            for v in alpha::int_values(t, Level::Quick, &[3, 7, -7, 255, 1000]) {
+                if v == i128::MIN { continue; }
+                for p in [0u8, 1, 9, 18] {
+                    for &a in &mini {
+                        let x = dec(a, p);
+                        let inp = || format!("({},{}) {}{} {}", a, p, v, tn, MODE_NAMES[mi]);
+                        with_int!(t, v, i => {
+                            if mi == 5 {
+                                emit!(c, &format!("Decimal+{}", tn), &inp, od(catch(|| x + i)));
+                                emit!(c, &format!("{}+Decimal", tn), &inp, od(catch(|| i + x)));
+                                emit!(c, &format!("Decimal-{}", tn), &inp, od(catch(|| x - i)));
+                                emit!(c, &format!("{}-Decimal", tn), &inp, od(catch(|| i - x)));
+                                emit!(c, &format!("Decimal.checked_add({})", tn), &inp, oo(catch(|| CheckedAdd::checked_add(x, i))));
+                                emit!(c, &format!("{}.checked_sub(Decimal)", tn), &inp, oo(catch(|| CheckedSub::checked_sub(i, x))));
+                                emit!(c, &format!("Decimal*{}", tn), &inp, od(catch(|| x * i)));
+                                emit!(c, &format!("{}.checked_mul(Decimal)", tn), &inp, oo(catch(|| CheckedMul::checked_mul(i, x))));
+                                emit!(c, &format!("Decimal%{}", tn), &inp, od(catch(|| x % i)));
+                                emit!(c, &format!("{}%Decimal", tn), &inp, od(catch(|| i % x)));
+                                emit!(c, &format!("{}.checked_rem(Decimal)", tn), &inp, oo(catch(|| CheckedRem::checked_rem(i, x))));
+                                emit!(c, &format!("{} cmp Decimal", tn), &inp, format!("{:?}", catch(|| (i == x, i.partial_cmp(&x), x.partial_cmp(&i)))));
+                            }
+                            emit!(c, &format!("Decimal/{}", tn), &inp, od(catch(|| x / i)));
+                            emit!(c, &format!("{}/Decimal", tn), &inp, od(catch(|| i / x)));
+                            emit!(c, &format!("{}.checked_div(Decimal)", tn), &inp, oo(catch(|| CheckedDiv::checked_div(i, x))));
+                            for n in [0u8, 10, 18] {
+                                emit!(c, &format!("Decimal.div_rounded({},{})", tn, n), &inp, od(catch(|| x.div_rounded(i, n))));
+                                emit!(c, &format!("{}.div_rounded(Decimal,{})", tn, n), &inp, od(catch(|| i.div_rounded(x, n))));
+                            }
+                            emit!(c, &format!("{}.div_rounded({},5)", tn, tn), &inp, od(catch(|| i.div_rounded(i, 5))));
+                        });
+                    }
+                }
             }
         }
     }
